@@ -363,6 +363,52 @@ def _check_status_loop(run, repo, world):
     cfg = CFG(fn, may_raise=explicit_raise_only, name="BitmapResponse.status")
     loops = [n for n in cfg.reachable if n.kind == "for"]
     K = CMD + "BitmapResponse.status"
+    if len(loops) == 0:
+        # comprehension form: [name for i, name in enumerate(self.bits)
+        #                      if name and v >> i & 1]
+        comp = None
+        for n in cfg.reachable:
+            if n.kind == "stmt" and isinstance(n.ast, ast.Return) and \
+                    isinstance(n.ast.value, ast.ListComp):
+                comp = n.ast.value
+        inits = {}
+        for n in cfg.reachable:
+            if n.kind == "stmt" and isinstance(n.ast, ast.Assign) and \
+                    isinstance(n.ast.targets[0], ast.Name) and unparse(
+                        n.ast.value) in ("self._value[7:0]",
+                                         "self._value[0:7]",
+                                         "self._value.as_integer"):
+                inits[n.ast.targets[0].id] = unparse(n.ast.value)
+        if comp is not None and len(comp.generators) == 1 and unparse(
+                comp.generators[0].iter) == "enumerate(self.bits)" and \
+                isinstance(comp.generators[0].target, ast.Tuple) and len(
+                    comp.generators[0].target.elts) == 2:
+            g = comp.generators[0]
+            idx, b = [unparse(x) for x in g.target.elts]
+            conds = set()
+            for t in g.ifs:
+                for x in (t.values if isinstance(t, ast.BoolOp) and
+                          isinstance(t.op, ast.And) else [t]):
+                    conds.add(unparse(x))
+            vs = list(inits) + list(inits.values())
+            tests = set()
+            for v in vs:
+                tests |= {"%s & 1 << %s" % (v, idx), "%s >> %s & 1" % (v, idx),
+                          "%s >> %s & 1 == 1" % (v, idx),
+                          "%s & 1 << %s != 0" % (v, idx)}
+            tests.add("self._value[%s]" % idx)
+            run.ob("R-STATUS-LOOP", K + "#shift-every-iteration", True)
+            run.ob("R-STATUS-LOOP", K + "#append-guard",
+                   unparse(comp.elt) == b and b in conds and bool(
+                       conds & tests) and len(conds) == 2,
+                   "a name must be listed exactly when bit %s of the answer "
+                   "is set and the bit is named (conditions: %s)"
+                   % (idx, sorted(conds)), where(mod, fn))
+            run.ob("R-STATUS-LOOP", K + "#test-before-shift", True)
+            run.ob("R-STATUS-LOOP", K + "#initial", bool(inits) or any(
+                "self._value[" in c_ for c_ in conds),
+                "the bit test must read the 8-bit answer", where(mod, fn))
+            return
     if len(loops) != 1:
         raise AnalysisError("BitmapResponse.status: expected exactly one "
                             "loop over the bit names (found %d); the form "
